@@ -13,3 +13,146 @@ Definition tapply (r : tred FN) (o : top) : tred FN :=
 Definition run_tred (dt tc dur : T FN) (incl : bool) (ops : list top) : tree :=
   let r := fold_left tapply ops (tred_ctor FN dt tc dur incl) in
   Nd [ser_float (t_dt FN r); ser_float (t_decay FN r); L (r_size FN (t_rec FN r)); ser_float (r_dur FN (t_rec FN r))].
+
+(* ====================================================================================================
+   Executable readings of the extended C14 models (RecordTensor level, reducers, synapses with contents,
+   connections, batch size).  Elements are integers z standing for z/2, data types 0 = bool, 1 = int64,
+   2 = float64 (C01/RingExec.v); the default data type (torch.empty(0)) is float64. *)
+From Inferno Require Import C01.Ring C01.RingExec C13.Shaped C13.Resize C13.ResizeExec
+  C14.RecordCfg C14.Batch C14.Reducer C14.Conn.
+
+Definition ser_skind (r : rec0) : tree :=
+  match st (rg FN r) with
+  | SNone => Nd [L 0]
+  | SEmpty d => Nd [L 1; L d]
+  | SFull d sh rows => Nd [L 2; L d; ser_shape sh; ser_nat (length rows)]
+  end%Z.
+(* a record without its contents: slots, pointer, storage kind / data type / observation shape, user constraints,
+   its own temporal configuration *)
+Definition ser_rec_shape (r : rec0) : tree :=
+  Nd [ser_nat (N (rg FN r)); ser_nat (ptr (rg FN r)); ser_skind r; ser_cons (user_cons FN r);
+      ser_float (rdt FN r); ser_float (rdur FN r); ser_bool (rincl FN r)].
+
+(* ---------------- RecordTensor level ---------------- *)
+Inductive xop := XSet (s : rset FN) | XPush (o : @obs Z Z).
+Definition xapply (r : rec0) (o : xop) : rec0 :=
+  match o with
+  | XSet s => rapply FN 0%Z r s
+  | XPush ob => fst (fst (rstep0 r (RRing FN (OpPush ob false))))
+  end.
+Definition xexpect (cfg : PrimFloat.float * PrimFloat.float * bool) (o : xop) :=
+  match o with XSet s => rexpect FN cfg s | XPush _ => cfg end.
+Fixpoint xtrace (r : rec0) (ops : list xop) : list tree :=
+  match ops with [] => [] | o :: tl => let r' := xapply r o in ser_rec r' :: xtrace r' tl end.
+(* [per-op states; expected configuration; state after reset; fresh record of that configuration (from a value of the
+   same data type and observation shape), and the fresh record after reset] *)
+Definition run_record (strict : bool) (ucons : cons_t) (dt dur : PrimFloat.float) (incl : bool)
+                      (value : option tensor0) (ops : list xop) : tree :=
+  match rcreate FN strict false false ucons dt dur incl value with
+  | inl r0 =>
+      let r := fold_left xapply ops r0 in
+      let '(dt', dur', incl') := fold_left xexpect ops (dt, dur, incl) in
+      Nd [L 0; ser_rec r0; Nd (xtrace r0 ops); Nd [ser_float dt'; ser_float dur'; ser_bool incl'];
+          ser_rec (rclear FN castZ r 0%Z);
+          match rcreate FN strict false false ucons dt' dur' incl' (template FN 0%Z r) with
+          | inl rf => Nd [L 0; ser_rec rf; ser_rec (rclear FN castZ rf 0%Z)]
+          | inr e => Nd [L 1; ser_xerr (Some e)]
+          end]
+  | inr e => Nd [L 1; ser_xerr (Some e)]
+  end%Z.
+
+(* ---------------- reducers ---------------- *)
+Definition red0 := @red FN Z Z.
+Definition ser_red (R : red0) : tree :=
+  Nd [ser_float (d_dt FN R); ser_float (d_dur FN R); ser_bool (d_incl FN R); ser_bool (d_inplace FN R);
+      ser_float (d_decay FN R); ser_bool (d_initial FN R); ser_rec_shape (d_rec FN R)].
+Definition red_apply0 : red0 -> red_op FN -> red0 := @red_apply FN Z Z castZ promoteZ Z.eqb 0%Z 2%Z.
+Fixpoint red_trace (R : red0) (ops : list (@red_op FN Z Z)) : list tree :=
+  match ops with [] => [] | o :: tl => let R' := red_apply0 R o in ser_red R' :: red_trace R' tl end.
+Definition run_red (dt dur : PrimFloat.float) (incl ip : bool) (tc : PrimFloat.float) (ops : list (@red_op FN Z Z)) : tree :=
+  match @red_ctor FN Z Z 0%Z 2%Z dt dur incl ip tc with
+  | Some R0 =>
+      let R := fold_left red_apply0 ops R0 in
+      let '(dt', dur', ip') := fold_left (@red_expect FN Z Z) ops (dt, dur, ip) in
+      Nd [L 0; ser_red R0; Nd (red_trace R0 ops); Nd [ser_float dt'; ser_float dur'; ser_bool ip'];
+          ser_red (@red_clear FN Z Z castZ 0%Z 2%Z R false);
+          match @red_ctor FN Z Z 0%Z 2%Z dt' dur' incl ip' tc with Some Rf => Nd [L 0; ser_red Rf] | None => Nd [L 1] end]
+  | None => Nd [L 1]
+  end%Z.
+(* the pre-repair duration setter, for the record of what it did *)
+Definition run_red_old (dt dur : PrimFloat.float) (incl ip : bool) (tc v : PrimFloat.float) : tree :=
+  match @red_ctor FN Z Z 0%Z 2%Z dt dur incl ip tc with
+  | Some R0 => Nd [L 0; ser_red (@red_set_dur_old FN Z Z 0%Z R0 v)]
+  | None => Nd [L 1]
+  end%Z.
+
+(* ---------------- synapses with contents ---------------- *)
+Definition scomp0 := @scomp FN Z Z.
+Definition ser_scomp (full : bool) (c : scomp0) : tree :=
+  Nd [ser_float (s_dt FN c); ser_float (s_delay FN c); L (s_batch FN c); ser_bool (s_inplace FN c);
+      ser_list (if full then ser_rec else ser_rec_shape) (s_hists FN c)].
+Definition s_apply0 : scomp0 -> s_op FN -> scomp0 := @s_apply FN Z Z castZ 0%Z.
+Fixpoint s_trace (c : scomp0) (ops : list (s_op FN)) : list tree :=
+  match ops with [] => [] | o :: tl => let c' := s_apply0 c o in ser_scomp false c' :: s_trace c' tl end.
+Definition run_syn (ds : list Z) (shp : list nat) (dt delay : PrimFloat.float) (b : Z) (ip : bool) (ops : list (s_op FN)) : tree :=
+  match @s_ctor FN Z Z 0%Z ds shp dt delay b ip with
+  | Some c0 =>
+      let c := fold_left s_apply0 ops c0 in
+      let '(dt', dl', b', ip') := fold_left (s_expect FN) ops (dt, delay, b, ip) in
+      Nd [L 0; ser_scomp true c0; Nd (s_trace c0 ops); Nd [ser_float dt'; ser_float dl'; L b'; ser_bool ip'];
+          ser_scomp true (@s_clear FN Z Z castZ 0%Z c);
+          match @s_ctor FN Z Z 0%Z ds shp dt' dl' b' ip' with
+          | Some cf => Nd [L 0; ser_scomp true (@s_clear FN Z Z castZ 0%Z cf)]
+          | None => Nd [L 1]
+          end]
+  | None => Nd [L 1]
+  end%Z.
+
+(* ---------------- connections ---------------- *)
+Definition conn0 := @conn FN Z Z.
+Definition ser_conn (full : bool) (c : conn0) : tree :=
+  Nd [ser_float (conn_dt FN c); L (conn_batch FN c); ser_option ser_float (conn_delayedby FN c);
+      ser_scomp full (conn_synapse FN c); ser_bool (match k_stray FN c with Some _ => true | None => false end)].
+Definition conn_apply0 (shp : list nat) : conn0 -> @conn_op FN Z -> conn0 := @conn_apply FN Z Z castZ 0%Z shp.
+Fixpoint conn_trace (shp : list nat) (c : conn0) (ops : list (@conn_op FN Z)) : list tree :=
+  match ops with [] => [] | o :: tl => let c' := conn_apply0 shp c o in ser_conn false c' :: conn_trace shp c' tl end.
+Definition run_conn (ds : list Z) (shp : list nat) (dt : PrimFloat.float) (delay : option PrimFloat.float) (b : Z) (ip : bool)
+                    (ops : list (@conn_op FN Z)) : tree :=
+  match @conn_ctor FN Z Z 0%Z ds shp dt delay b ip with
+  | Some c0 =>
+      let c := fold_left (conn_apply0 shp) ops c0 in
+      let '(ds', dt', dl', b', ip') :=
+        fold_left (@conn_expect FN Z) ops (ds, dt, match delay with Some d => d | None => zero FN end, b, ip) in
+      Nd [L 0; ser_conn true c0; Nd (conn_trace shp c0 ops);
+          Nd [ser_list ser_Z ds'; ser_float dt'; ser_float dl'; L b'; ser_bool ip'];
+          ser_conn true (@conn_clear FN Z Z castZ 0%Z c);
+          match @s_ctor FN Z Z 0%Z ds' shp dt' dl' b' ip' with
+          | Some sf => Nd [L 0; ser_conn true (@conn_clear FN Z Z castZ 0%Z
+                                  (conn_init FN (match delay with Some _ => true | None => false end) sf))]
+          | None => Nd [L 1]
+          end]
+  | None => Nd [L 1]
+  end%Z.
+(* the pre-repair synapse setter *)
+Definition run_conn_old (ds ds2 : list Z) (shp : list nat) (dt : PrimFloat.float) (b : Z) : tree :=
+  match @conn_ctor FN Z Z 0%Z ds shp dt None b false, @s_ctor FN Z Z 0%Z ds2 shp dt (zero FN) b false with
+  | Some c0, Some s => Nd [L 0; ser_conn false (conn_set_syn_old FN c0 s)]
+  | _, _ => Nd [L 1]
+  end%Z.
+
+(* ---------------- neurons: batched ShapedTensor state ---------------- *)
+Definition nstate0 := @nstate Z Z.
+Definition ser_nstate (n : nstate0) : tree :=
+  Nd [L (n_batch n); ser_list (fun sf => ser_shaped (fst sf)) (n_tensors n)].
+Definition n_set_batch0 : nstate0 -> Z -> nstate0 := @n_set_batch Z Z castZ 0%Z.
+Fixpoint n_trace (n : nstate0) (vs : list Z) : list tree :=
+  match vs with [] => [] | v :: tl => let n' := n_set_batch0 n v in ser_nstate n' :: n_trace n' tl end.
+Definition run_neuron (specs : list (Z * Z)) (shp : list nat) (b : Z) (vs : list Z) : tree :=
+  match @n_ctor Z Z castZ 0%Z specs shp b with
+  | Some n0 =>
+      Nd [L 0; ser_nstate n0; Nd (n_trace n0 vs); L (fold_left n_expect vs b);
+          match @n_ctor Z Z castZ 0%Z specs shp (fold_left n_expect vs b) with
+          | Some nf => Nd [L 0; ser_nstate nf] | None => Nd [L 1] end;
+          ser_nstate (@n_clear Z Z castZ (fold_left n_set_batch0 vs n0))]
+  | None => Nd [L 1]
+  end%Z.
